@@ -68,17 +68,17 @@ Definition children (k : kind) (name : string) : list ind * list (string * ind) 
       sub_ (K_WMA (period / 2) input) (name ++ "_WMAh") true [] []],
      [("raw_HMA", sub_ K_MANAGED (name ++ "_HMAr") true
          [sub_ (K_WMA (Z.sqrt period) (name ++ "_HMAr")) (name ++ "_HMAs") false [] []] [])])
-  | K_ATR period => ([sub_ K_TR "TR" true [] []], [])
+  | K_ATR period => ([sub_ K_TR (name ++ "_TR") true [] []], [])
   | K_STDEV period input => ([], [("STDEV_data", sub_ K_MANAGED (name ++ "_data") true [] [])])
   | K_BBANDS period input =>
     let sd := name ++ "_STDEV" in
     ([sub_ (K_STDEV period input) sd true [] [("STDEV_data", sub_ K_MANAGED (sd ++ "_data") true [] [])];
       sub_ (K_SMA period input) (name ++ "_SMA") true [] []], [])
   | K_KC period mult input =>
-    ([sub_ (K_ATR period) (name ++ "_ATR") true [sub_ K_TR "TR" true [] []] [];
+    ([sub_ (K_ATR period) (name ++ "_ATR") true [sub_ K_TR (name ++ "_ATR_TR") true [] []] [];
       sub_ (K_EMA period input (ndec NO 20 1)) (name ++ "_EMA") true [] []], [])
   | K_SUPERTREND period mult =>
-    ([sub_ (K_ATR period) (name ++ "_atr") true [sub_ K_TR "TR" true [] []] [];
+    ([sub_ (K_ATR period) (name ++ "_atr") true [sub_ K_TR (name ++ "_atr_TR") true [] []] [];
       sub_ K_HLA (name ++ "_HL") true [] []],
      [("ST_data", sub_ K_MANAGED (name ++ "_data") true [] [])])
   | K_STDEVTHRES period mult input =>
@@ -100,7 +100,7 @@ Definition children (k : kind) (name : string) : list ind * list (string * ind) 
               sub_ (K_EMA period (name ++ "_data.abs_price") (ndec NO 20 1)) (name ++ "_abs_first") false
                 [sub_ (K_EMA smooth (name ++ "_abs_first") (ndec NO 20 1)) (name ++ "_abs_second") false [] []] []] [])])
   | K_ADX period signal =>
-    ([sub_ (K_ATR period) (name ++ "_atr") true [sub_ K_TR "TR" true [] []] []],
+    ([sub_ (K_ATR period) (name ++ "_atr") true [sub_ K_TR (name ++ "_atr_TR") true [] []] []],
      [("ADX_data", sub_ K_MANAGED (name ++ "_data") true
          [sub_ (K_RMA period (name ++ "_data.pos")) (name ++ "_pos") false [] [];
           sub_ (K_RMA period (name ++ "_data.neg")) (name ++ "_neg") false [] []] []);
@@ -344,12 +344,12 @@ Definition calc_reading (I : ind) (st : store) (i : Z) : res leaf_result :=
   | K_ATR period =>
     pe <- prev_exists st name i ;;
     if pe then
-      pv <- prev_reading st name i ;; pr <- as_num pv ;; tr <- rnum st "TR" i ;;
+      pv <- prev_reading st name i ;; pr <- as_num pv ;; tr <- rnum st (name ++ "_TR") i ;;
       q <- divn (nadd NO (nmul NO pr (zn (period - 1))) tr) (zn period) ;; ret (vnum q) st
     else
-      rp <- rperiod st period "TR" i ;;
+      rp <- rperiod st period (name ++ "_TR") i ;;
       if rp then
-        sv <- csum st period "TR" i ;; s <- as_num sv ;; q <- divn s (zn period) ;; ret (vnum q) st
+        sv <- csum st period (name ++ "_TR") i ;; s <- as_num sv ;; q <- divn s (zn period) ;; ret (vnum q) st
       else ret VNone st
   | K_STDEV period input =>
     xv <- reading st input i ;;
